@@ -789,18 +789,42 @@ theorem checkRun_sound (np : Nat) (exps : Nat → List Item) (outs : List OutW) 
     · cases h
     · rename_i hnone2
       split at h
-      · rename_i htr
-        refine ⟨?_, ?_, fun g hg => checkTracers_sound outs exps np 0 htr g (by omega) (by omega),
-          fun g hg => checkProds_sound outs exps np 0 h g (by omega) (by omega)⟩
-        · intro o ho
-          have := List.find?_eq_none.mp hnone o ho
-          simpa using this
-        · intro o ho hs
-          have := List.find?_eq_none.mp hnone2 o ho
-          simp [OutW.mergedTracer, hs] at this
-          exact this
+      · split at h
+        · rename_i htr
+          refine ⟨?_, ?_, fun g hg => checkTracers_sound outs exps np 0 htr g (by omega) (by omega),
+            fun g hg => checkProds_sound outs exps np 0 h g (by omega) (by omega)⟩
+          · intro o ho
+            have := List.find?_eq_none.mp hnone o ho
+            simpa using this
+          · intro o ho hs
+            have := List.find?_eq_none.mp hnone2 o ho
+            simp [OutW.mergedTracer, hs] at this
+            exact this
+        · rename_i hv
+          exact absurd h hv
       · rename_i hv
         exact absurd h hv
+
+/-- The line-by-line pre-check never rejects what the specification allows: in a conforming output every line
+    lies in the block of an item that matches it and may be emitted at least once. -/
+theorem conforms_line_allowed {es : List Item} {got : List Got} (h : Conforms es got) :
+    ∀ g ∈ got, neverAllowed es g = false := by
+  have key : ∀ g ∈ got, ∃ e ∈ es, e.matches g = true ∧ 0 < e.hi := by
+    induction h with
+    | nil => intro g hg; cases hg
+    | @cons e es blk rest hb hlo hhi _ ih =>
+      intro g hg
+      rcases List.mem_append.mp hg with hg | hg
+      · refine ⟨e, List.mem_cons_self, (matches_iff e g).mpr (hb g hg), ?_⟩
+        have : 0 < blk.length := List.length_pos_of_mem hg
+        omega
+      · obtain ⟨e', he', hm, hh⟩ := ih g hg
+        exact ⟨e', List.mem_cons_of_mem _ he', hm, hh⟩
+  intro g hg
+  obtain ⟨e, he, hm, hh⟩ := key g hg
+  have : (es.any fun e => e.matches g && decide (0 < e.hi)) = true :=
+    List.any_eq_true.mpr ⟨e, he, by simp [hm, hh]⟩
+  simp [neverAllowed, this]
 
 /-! ### Liveness: the writer alone can drain the buffer -/
 
